@@ -522,6 +522,15 @@ func (s *SQLiteStore) streamBatch(
 		}
 	}
 
+	// Next() also returns false when fetching a row failed: do not mistake
+	// that for the end of the batch.
+	if err := rows.Err(); err != nil {
+		rows.Close() // Best effort close, iteration error takes precedence
+		*iterErr = fmt.Errorf("sqlite: iterate events: %w", err)
+		yield(nil, *iterErr)
+		return batchCount, lastPos, false
+	}
+
 	if err := rows.Close(); err != nil {
 		*iterErr = fmt.Errorf("sqlite: close rows: %w", err)
 		yield(nil, *iterErr)
